@@ -741,7 +741,8 @@ def _factories(grid, r):
     lf = lambda mk: (lambda: (lambda t, f=mk(): f(None, (t, t))[1]))
     return {
         'exponential_filter': (lambda: filtering.exponential_filter(grid, 16.0, 2, 0.25), 2, 2, [16.0, 0.25]),
-        'horizontal_diffusion_filter': (lambda: filtering.horizontal_diffusion_filter(grid, 0.01, 2), 3, 2, [0.01, r]),
+        'horizontal_diffusion_filter': (lambda: filtering.horizontal_diffusion_filter(grid, 0.01, 1), 3, 1, [0.01, r]),
+        'horizontal_diffusion_filter order 3': (lambda: filtering.horizontal_diffusion_filter(grid, 0.001, 3), 3, 3, [0.001, r]),
         'exponential_step_filter': (rk(lambda: ti.exponential_step_filter(grid, 0.5, 0.25, 2, 0.25)), 4, 2, [0.5, 0.25, 0.25]),
         'exponential_leapfrog_step_filter': (lf(lambda: ti.exponential_leapfrog_step_filter(grid, 0.75, 0.25, 1, 0.0)), 4, 1, [0.75, 0.25, 0.0]),
         'horizontal_diffusion_step_filter': (rk(lambda: ti.horizontal_diffusion_step_filter(grid, 0.5, 2.0, 1)), 5, 1, [0.5, 2.0, r]),
@@ -754,11 +755,16 @@ def r_purity(ctx, a):
     differs in one option, and on fresh instances: bit-identical factors, cached grid tables untouched."""
     jax, jnp, filtering, sh, ti = J()
     gA, gB = a['gridA'], a['gridB']
-    def facs(grid, spec):
-        ms = tuple(expected_layout(spec)[0])
-        return {k: np.asarray(v[0]()({'x': np.ones((2,) + ms)})['x']) for k, v in _factories(grid, float(spec['radius'])).items()}
     def tables(grid):
         return [np.array(grid.laplacian_eigenvalues, copy=True), np.array(grid.modal_axes[0], copy=True), np.array(grid.modal_axes[1], copy=True)]
+    def facs(grid, spec):
+        ms = tuple(expected_layout(spec)[0]); out = {}
+        t0 = tables(grid)
+        for k, v in _factories(grid, float(spec['radius'])).items():
+            out[k] = np.asarray(v[0]()({'x': np.ones((2,) + ms)})['x'])
+            ctx.oracle('filter construction does not modify the cached tables of the Grid',
+                       all(np.array_equal(x, y) for x, y in zip(t0, tables(grid))), {'after': k})
+        return out
     A = new_grid(gA); B = new_grid(gB)
     if a['first'] == 'B': facs(B, gB)
     tA = tables(A)
